@@ -9,10 +9,10 @@ def vh(name, engine, profile, scale=1.0, **kw):
     return d
 
 
-def vm_plan(quick_dev_scale=0.2, thorough_extra=()):
+def vm_plan(quick_dev_scale=0.2, thorough_extra=(), quick_scale=1.0):
     return {
-        "quick": [vh("vm-release", "vm", "release", 1.0, timeout=600),
-                  vh("vm-dev", "vm", "dev", quick_dev_scale, timeout=600)],
+        "quick": [vh("vm-release", "vm", "release", quick_scale, timeout=600),
+                  vh("vm-dev", "vm", "dev", quick_dev_scale * quick_scale, timeout=600)],
         "thorough": [vh("vm-release", "vm", "release", 1.0, timeout=3000),
                      vh("vm-relchk", "vm", "relchk", 0.5, timeout=3000),
                      vh("vm-dev", "vm", "dev", 0.05, timeout=3000)] + list(thorough_extra),
@@ -21,11 +21,12 @@ def vm_plan(quick_dev_scale=0.2, thorough_extra=()):
 
 PLANS = {
     "C05": vm_plan(),
-    "C07": vm_plan(),
+    # quick scales: chosen so that each quick check takes roughly 30-60 s on an idle 16-core box
+    "C07": vm_plan(quick_scale=8.0),
     "C08": vm_plan(),
-    "C09": vm_plan(),
+    "C09": vm_plan(quick_scale=5.0),
     "C10": vm_plan(),
-    "C11": vm_plan(),
+    "C11": vm_plan(quick_scale=3.0),
     "C12": vm_plan(),
     "C14": vm_plan(),
 }
@@ -52,20 +53,20 @@ def simple_plan(engine, dev_scale=0.1):
 PLANS["C17"] = simple_plan("formats")
 PLANS["C18"] = simple_plan("formats")
 
-def scen_plan(dev_scale=0.1, pool_env=None):
+def scen_plan(dev_scale=0.1, pool_env=None, quick_scale=1.0):
     env = {"RAYON_NUM_THREADS": "4"}
-    q = [vh("scen-release", "scen", "release", 1.0, timeout=900, env=env), vh("scen-dev", "scen", "dev", dev_scale, timeout=900, env=env)]
+    q = [vh("scen-release", "scen", "release", quick_scale, timeout=900, env=env), vh("scen-dev", "scen", "dev", dev_scale * quick_scale, timeout=900, env=env)]
     t = [vh("scen-release", "scen", "release", 1.0, timeout=3400, env=env), vh("scen-relchk", "scen", "relchk", 0.2, timeout=3400, env=env)]
     return {"quick": q, "thorough": t}
 
 
-for _p in ("C01", "C03", "C04", "C16"):
-    PLANS[_p] = scen_plan()
+for _p in ("C01", "C03", "C04"):
+    PLANS[_p] = scen_plan(quick_scale=4.0)
 PLANS["C06"] = {
     "quick": [vh("total-release", "total", "release", 1.0, timeout=900), vh("total-dev", "total", "dev", 0.2, timeout=900)] + scen_plan()["quick"],
     "thorough": [vh("total-release", "total", "release", 1.0, timeout=3400), vh("total-relchk", "total", "relchk", 0.3, timeout=3400)] + scen_plan()["thorough"],
 }
-PLANS["C02"] = scen_plan()
+PLANS["C02"] = scen_plan(quick_scale=2.5)
 for _t in ("quick", "thorough"):
     for _s in PLANS["C02"][_t]:
         _s["shards"] = 4          # each worker drives pools of up to 16 threads itself
